@@ -46,6 +46,8 @@ def build(p):
         if op[0] == "fills":
             expect.append(("pycheck", "all_ok", i))
     ops.append(("new", "zf", spec))
+    # the closed-form specification of the stream (model: denote) against the filled implementation state
+    ops.append(("denote", "dn", "zf", stream, "b"))
     for name in ("iszero", "hastmpl", "nobins", "good"):
         ops.append(("mcheck", [name, "zf"], True))
     for dw in stream:
